@@ -1,5 +1,5 @@
 ---- MODULE MC_q_match ----
 EXTENDS MCOFWire
-TheCases == MatchIn("match", MFlagsAll(0) \cup MBits(BitsQ) \cup MTypes(0) \cup MVals(0), "all") \cup MatchIn("flow_mod", MFlags2(0) \cup MBits(BitsQ) \cup MTypes(0) \cup MVals(0), "q") \cup UNION {MatchIn(k, MFlags1(0) \cup MTypes(0), "q") : k \in MatchKinds \ {"match", "flow_mod"}}
+TheCases == MatchIn("match", MFlags2(0) \cup MFlagsCo(2) \cup MBits(BitsQ) \cup MTypes(0) \cup MVals(0), "q") \cup MatchIn("flow_mod", MFlags2(0) \cup MFlagsCo(2) \cup MBits(BitsQ) \cup MTypes(0) \cup MVals(0), "q") \cup UNION {MatchIn(k, MFlags1(0) \cup MTypes(0), "q") : k \in MatchKinds \ {"match", "flow_mod"}}
 TheAround == AroundOne
 ====
